@@ -115,12 +115,11 @@ def unaccounted_braces(s, nl):
     -- that are neither the delimiter of a group / math / environment node of the result nor inside
     a verbatim argument or verbatim environment: such a token was swallowed"""
     from ..treedump import argspec_str
-    toks = minitok.tokens(s)
-    active = [(a, b) for k, a, b in toks if (k == 'ch' and s[a] in '{}$') or k in ('begin', 'end')]
-    if not active:
+    if not (any(c in s for c in '{}$') or '\\begin' in s or '\\end' in s):
         return []
     ok = set()
     spans = []
+    envs = []
     for n in walk(nl):
         k = kind(n)
         if k in ('group', 'math'):
@@ -132,9 +131,7 @@ def unaccounted_braces(s, nl):
         if k == 'environment':
             if n.environmentname in VERBATIM_ENVIRONMENTS:
                 spans.append((n.pos, n.pos_end))
-            for kk, a, b in toks:
-                if (kk == 'begin' and a == n.pos) or (kk == 'end' and b == n.pos_end):
-                    ok.update(range(a, b))
+            envs.append(n)
         argd = getattr(n, 'nodeargd', None)
         if argd is not None:
             if 'Verbatim' in type(argd).__name__:
@@ -145,8 +142,40 @@ def unaccounted_braces(s, nl):
                 if a is not None and (t.startswith('v') or 'Verbatim' in t) and \
                         getattr(a, 'pos', None) is not None:
                     spans.append((a.pos, a.pos_end))
+    # lex the stretches between the verbatim spans separately (after a verbatim construct the
+    # lexical structure starts afresh: \verb\[\ followed by \} is verbatim + an escaped brace)
+    toks = []
+    prev = 0
+    for a, b in sorted(spans) + [(len(s), len(s))]:
+        if a > prev:
+            toks += [(k, x + prev, y + prev) for k, x, y in minitok.tokens(s[prev:a])]
+        prev = max(prev, b)
+    active = [(a, b) for k, a, b in toks if (k == 'ch' and s[a] in '{}$') or k in ('begin', 'end')]
+    for n in envs:
+        for kk, a, b in toks:
+            if (kk == 'begin' and a == n.pos) or (kk == 'end' and b == n.pos_end):
+                ok.update(range(a, b))
+    # a token only counts where the innermost node containing it was parsed with the corresponding
+    # feature switched on (chars-only argument parsers switch macros, math ... off)
+    nodes = [(n.pos, n.pos_end, n.parsing_state) for n in walk(nl)
+             if kind(n) != 'list' and getattr(n, 'pos', None) is not None
+             and getattr(n, 'pos_end', None) is not None and getattr(n, 'parsing_state', None) is not None]
+
+    def enabled(a):
+        best = None
+        for x, y, ps in nodes:
+            if x <= a < y and (best is None or (y - x) <= (best[1] - best[0])):
+                best = (x, y, ps)
+        if best is None:
+            return True
+        ps = best[2]
+        if s[a] in '{}':
+            return bool(ps.enable_groups)
+        if s[a] == '$':
+            return bool(ps.enable_math)
+        return bool(ps.enable_environments and ps.enable_macros)
     return [a for a, b in active if not all(p in ok for p in range(a, b))
-            and not any(x <= a < y for x, y in spans)]
+            and not any(x <= a < y for x, y in spans) and enabled(a)]
 
 
 def check_soup(s, ctxname, res, case):
